@@ -273,6 +273,7 @@ func c14DerivJudge(args, real, drv json.RawMessage) *core.Verdict {
 		Err           *string `json:"err"`
 		RecvUnchanged bool    `json:"recvUnchanged"`
 		Confined      bool    `json:"confined"`
+		WellTyped     bool    `json:"wellTyped"`
 		RF            bool    `json:"rf"`
 		Bad           string  `json:"bad"`
 	}
@@ -295,6 +296,9 @@ func c14DerivJudge(args, real, drv json.RawMessage) *core.Verdict {
 	if !d.RF || !d.Confined || !d.RecvUnchanged {
 		return core.Disagree(fmt.Sprintf("the heap program is not receiver free / confined on this input (rf=%v confined=%v receiver unchanged=%v)", d.RF, d.Confined, d.RecvUnchanged))
 	}
+	if !d.WellTyped {
+		return core.Disagree("the heap program's result does not have the type of a project (type preservation fails on this input)")
+	}
 	if (r.Err != "") != (d.Err != nil) {
 		return core.Disagree(fmt.Sprintf("error class: real %q, model %v", r.Err, d.Err))
 	}
@@ -304,11 +308,8 @@ func c14DerivJudge(args, real, drv json.RawMessage) *core.Verdict {
 	if r.Res == nil {
 		return nil
 	}
+	// (no mask: since C15's repair WithSelectedServices disables the unselected services in name order, the result is order independent)
 	var mask func(string) bool
-	if r.Op == "WithSelectedServices" {
-		// which dependencies a service keeps when it is disabled during the selection depends on Go's map order (C15's finding)
-		mask = func(p string) bool { return p == ".DisabledServices.*.DependsOn" }
-	}
 	x, y := c14Renumber(r.Res, r.K, mask), c14Renumber(d.Res, r.K, mask)
 	if where := jsonDiff(x, y, ""); where != "" {
 		// a result that shares memory with the receiver where the (receiver-free, confined) program does not is a failing input
